@@ -46,7 +46,7 @@ def MUL(name, op, sizes, tier_of):
 
 
 _mul_sizes = [(ua, ub, al) for ua in range(0, 4) for ub in range(0, 4) for al in (0, 1, 2) if al == 0 or (ua, ub) in ((2, 2), (1, 2), (2, 1))]
-_sqr_sizes = [(ua, 0, al) for ua in range(0, 5) for al in (0, 1) if al == 0 or ua == 2]
+_sqr_sizes = [(ua, 0, al) for ua in range(0, 4) for al in (0, 1) if al == 0 or ua == 2]
 MULH = MUL("mul_comba", 1, _mul_sizes, lambda ua, ub: "quick" if ua * ub <= 4 else "thorough")
 SQRH = MUL("sqr_comba", 2, _sqr_sizes, lambda ua, ub: "quick" if ua <= 2 else "thorough")
 
@@ -83,7 +83,7 @@ HARNESSES += [DIVH, MODW]
 
 PROPERTY = dict(level='model_checking',
     claim='pstm add/sub/sub_s/cmp/mul_2/div_2/div_2d (quotient and remainder, every shift count, c aliasing a)/lshd/rshd/copy and pstm_div (a = q*b + r, |r| < |b|, signs; quotients below 2^4) equal an independent ripple-carry reference for all 64-bit digit values, all signs, output aliasing; comba multiplication and squaring over the asm2c-translated x86-64 kernels equal schoolbook multiplication with the 64x64 product as an uninterpreted symmetric function; pstm_mod returns the residue with the sign of the modulus (or zero) for every sign combination, given an exact pstm_div (contract stub).',
-    bounds='operands <= 3 digits (mul/sqr quick: <= 2x2 / 2; thorough 3x3 / 4), capacity 8 digits',
+    bounds='operands <= 3 digits (mul/sqr quick: <= 2x2 / 2; thorough 3x3 / 3; 4-digit squaring gave no verdict in 60 min), capacity 8 digits',
     outside='pstm_div beyond quotients of 4 bits and 2-digit operands (the per-bit loop costs ~100 s of solver time per quotient bit), Montgomery reduction, exptmod, invmod, larger operand sizes, the unrolled 16/32-digit variants, non-x86-64 kernels',
     explanation='pstm add/sub/sub_s/cmp/mul_2/div_2/lshd/rshd/copy and pstm_div (a = q*b + r, |r| < |b|, signs; quotients below 2^4) equal an independent ripple-carry reference for all 64-bit digit values, all signs, output aliasing; comba multiplication and squaring over the asm2c-translated x86-64 kernels equal schoolbook multiplication with the 64x64 product as an uninterpreted symmetric function; pstm_mod returns the residue with the sign of the modulus (or zero) for every sign combination, given an exact pstm_div (contract stub).',
     assumptions=[])
